@@ -11,6 +11,15 @@ package slotfsm_test
 // bytes are compared with the reference at the log position the specification determines.
 // A seeded random driver does the same with longer logs and records what it observed for
 // TLC to validate.  Exported API only.
+//
+// Hash slots the slot does not own: the database also holds hash slot 4 (empty) and hash slot 5
+// (filled with the rows of another slot, written through a second state machine that owns it,
+// as on a node that hosts several slots).  After EVERY command of the one-at-a-time run,
+// accepted or refused, the exported content of hash slots 4 and 5 must be what it was before
+// the command ("commands for hash slots the slot does not own are refused without side
+// effects").  The generators include forwarded hash-slot-migration deltas (ApplyDelta for an
+// owned hash slot h) that wrap every multi-item batch command kind with items for h, for other
+// owned hash slots and for hash slots 4 / 5: only the items of h may take effect.
 
 import (
 	"bytes"
@@ -39,10 +48,18 @@ const (
 	baseMS   = int64(1750000000000)
 )
 
+const (
+	seedSlot = 8 // the slot that owns hash slot 5 in the same database
+	seedHS   = 5
+)
+
 var (
 	ownedHS = []uint16{1, 2, 3}
-	allHS   = []uint16{1, 2, 3, 4} // 4 is never owned; it is exported to see side effects there
-	bg      = context.Background()
+	// 4 and 5 are never owned by the slot under test; they are exported to see side effects
+	// there: 4 is empty, 5 holds rows of slot 8 (same channels and users as the generators use)
+	foreignHS = []uint16{4, seedHS}
+	allHS     = []uint16{1, 2, 3, 4, seedHS}
+	bg        = context.Background()
 )
 
 // ---------------------------------------------------------------------------------------
@@ -136,15 +153,73 @@ func (w *world) fresh() error {
 		if err := w.db.DeleteSlotData(bg, slotID); err != nil {
 			ok = false
 		}
+		if err := w.db.DeleteSlotData(bg, seedSlot); err != nil {
+			ok = false
+		}
 		if ok && w.newSM() == nil {
 			b, err := w.export()
 			d, derr := w.durable()
 			if err == nil && derr == nil && d == 0 && bytes.Equal(b, w.empty) {
-				return nil
+				return w.seedForeign()
 			}
 		}
 	}
-	return w.newDir()
+	if err := w.newDir(); err != nil {
+		return err
+	}
+	return w.seedForeign()
+}
+
+// seedForeign fills hash slot 5 through a state machine of slot 8 that owns it: pending person
+// directory tasks with their channel rows and runtime metadata, channel latest rows, a
+// membership and a group runtime metadata row - the keys the generators of this harness use, so
+// that a write that escapes into hash slot 5 creates, overwrites or deletes something there.
+func (w *world) seedForeign() error {
+	sm, err := fsm.NewStateMachineWithHashSlots(w.db, seedSlot, []uint16{seedHS})
+	if err != nil {
+		return err
+	}
+	meta := func(ch string, ct int64) metadb.ChannelRuntimeMeta {
+		return metadb.ChannelRuntimeMeta{ChannelID: ch, ChannelType: ct, ChannelEpoch: 10, LeaderEpoch: 20, Replicas: []uint64{1, 2, 3},
+			ISR: []uint64{1, 2}, Leader: 1, MinISR: 2, Status: 1, Features: 1, LeaseUntilMS: baseMS + 10000}
+	}
+	p2, p3 := channelid.EncodePersonChannel("u1", "u2"), channelid.EncodePersonChannel("u1", "u3")
+	admit, err := fsm.EncodeAdmitPersonDirectoryTaskBatchCommandChecked([]fsm.PersonDirectoryAdmissionBatchItem{
+		{HashSlot: seedHS, Task: metadb.PersonDirectoryTask{ChannelID: p2, ChannelType: 1, CommittedTail: 1, CreatedAt: baseMS}, RuntimeMeta: meta(p2, 1)},
+		{HashSlot: seedHS, Task: metadb.PersonDirectoryTask{ChannelID: p3, ChannelType: 1, CommittedTail: 1, CreatedAt: baseMS}, RuntimeMeta: meta(p3, 1)}})
+	if err != nil {
+		return err
+	}
+	group, err := fsm.EncodeCreateChannelRuntimeMetaBatchCommandChecked([]fsm.CreateChannelRuntimeMetaBatchItem{{HashSlot: seedHS, Meta: meta("ga", 2)}})
+	if err != nil {
+		return err
+	}
+	member, err := fsm.EncodeEnsureUserChannelMembershipBatchCommandChecked([]fsm.UserChannelMembershipBatchItem{{HashSlot: seedHS,
+		Membership: metadb.UserChannelMembership{UID: "u1", ChannelID: p2, ChannelType: 1, JoinSeq: 1, ActivatedAt: baseMS, UpdatedAt: baseMS}}})
+	if err != nil {
+		return err
+	}
+	lat := func(ch string) metadb.ChannelLatest {
+		return metadb.ChannelLatest{ChannelID: ch, ChannelType: 2, LastMessageID: 90, LastMessageSeq: 3, LastAt: baseMS, FromUID: "u9", ClientMsgNo: "m9",
+			Payload: []byte("seed"), UpdatedAt: baseMS}
+	}
+	datas := [][]byte{admit, group, member,
+		fsm.EncodeUpsertChannelLatestBatchCommand([]fsm.ChannelLatestBatchItem{{HashSlot: seedHS, Latest: lat("ga")}, {HashSlot: seedHS, Latest: lat("gb")}})}
+	cmds := make([]multiraft.Command, 0, len(datas))
+	for i, d := range datas {
+		cmds = append(cmds, multiraft.Command{SlotID: seedSlot, HashSlot: seedHS, Index: uint64(i + 1), Term: 1, Data: d})
+	}
+	if _, err := sm.(multiraft.BatchStateMachine).ApplyBatch(bg, cmds); err != nil {
+		return fmt.Errorf("seed hash slot %d: %w", seedHS, err)
+	}
+	snap, err := w.db.ExportHashSlotSnapshot(bg, []uint16{seedHS})
+	if err != nil {
+		return err
+	}
+	if snap.Stats.EntryCount < 8 {
+		return fmt.Errorf("seed hash slot %d: only %d entries were written", seedHS, snap.Stats.EntryCount)
+	}
+	return nil
 }
 
 func (w *world) destroy() {
@@ -154,8 +229,10 @@ func (w *world) destroy() {
 	}
 }
 
-func (w *world) export() ([]byte, error) {
-	snap, err := w.db.ExportHashSlotSnapshot(bg, allHS)
+func (w *world) export() ([]byte, error) { return w.exportOf(allHS) }
+
+func (w *world) exportOf(hs []uint16) ([]byte, error) {
+	snap, err := w.db.ExportHashSlotSnapshot(bg, hs)
 	if err != nil {
 		return nil, err
 	}
@@ -204,6 +281,28 @@ type gen struct {
 	lastGen                    int
 	lastHS                     uint16
 	lastUID, lastGroup, lastPC string
+	deltaSeq                   uint64 // source index of the next forwarded batch delta (never repeated)
+	// the (hash slot, channel, uids) of the last subscriber command: add / remove commands come
+	// back to it more often than not, so that one uid is added, removed and added again (or
+	// removed twice) by neighbouring log entries that an apply batch may or may not keep together
+	subHS   uint16
+	subCh   string
+	subUIDs []string
+	// queue: the rest of a scripted run of dependent commands; valid() hands these out before
+	// it draws again (other kinds of the log may fall in between)
+	queue []genFn
+}
+
+func (g *gen) subsTarget() (uint16, string, []string) {
+	if g.subUIDs != nil && g.n(10) < 6 {
+		uids := g.subUIDs
+		if g.n(4) == 0 && len(uids) > 1 {
+			uids = uids[:1+g.n(len(uids)-1)]
+		}
+		return g.subHS, g.subCh, append([]string(nil), uids...)
+	}
+	g.subHS, g.subCh, g.subUIDs = g.hs(), g.group(), g.uids()
+	return g.subHS, g.subCh, append([]string(nil), g.subUIDs...)
 }
 
 func (g *gen) tick() int64 { g.now += 1000; return g.now }
@@ -452,6 +551,52 @@ func gcTasks(g *gen) (uint16, []byte, string) {
 	return hs, fsm.EncodeGarbageCollectTerminalChannelMigrationTasksCommand(metadb.ChannelMigrationTaskGCRequest{BeforeMS: before, Limit: 1 + g.n(3)}), "GCMigrationTasks"
 }
 
+// otherHS draws the hash slot of an extra item of a forwarded batch: mostly one the slot does not
+// own (4: empty, 5: rows of another slot), sometimes another owned one.
+func (g *gen) otherHS(h uint16) uint16 {
+	switch r := g.n(10); {
+	case r < 4:
+		return 4
+	case r < 8:
+		return seedHS
+	}
+	if o := ownedHS[g.n(len(ownedHS))]; o != h {
+		return o
+	}
+	return seedHS
+}
+
+// deltaBatch wraps a multi-item batch command into a forwarded hash-slot-migration delta for the
+// owned hash slot h, as the source slot's outbox does (stageMigrationOutbox stores the WHOLE
+// original command for every migrating hash slot it touches).  items(h, others) builds the inner
+// command from the hash slots of its items: h (left out one time in four), one or two others.
+// Only the items of h may take effect on the receiving slot.
+func deltaBatch(g *gen, name string, items func(hs []uint16) ([]byte, error)) (uint16, []byte, string) {
+	h := g.hs()
+	var hss []uint16
+	if g.n(4) != 0 {
+		hss = append(hss, h)
+	}
+	hss = append(hss, g.otherHS(h))
+	if g.n(3) == 0 {
+		hss = append(hss, g.otherHS(h))
+	}
+	inner, err := items(hss)
+	if err != nil || inner == nil {
+		return 0, nil, ""
+	}
+	g.deltaSeq++
+	return h, fsm.EncodeApplyDeltaCommand(9, 100+g.deltaSeq, h, inner), "DeltaBatch(" + name + ")"
+}
+
+// personFor: the person channel the seeded hash slot holds a pending task for, most of the time.
+func (g *gen) personFor(hs uint16) string {
+	if hs == seedHS && g.n(4) != 0 {
+		return channelid.EncodePersonChannel("u1", "u2")
+	}
+	return g.person()
+}
+
 type weighted struct {
 	w  int
 	fn genFn
@@ -516,14 +661,16 @@ var generators = []weighted{
 		if g.n(2) == 0 {
 			v = []uint64{uint64(g.n(5))}
 		}
-		return g.hs(), fsm.EncodeAddSubscribersCommand(g.group(), 2, g.uids(), v...), "AddSubscribers"
+		hs, ch, uids := g.subsTarget()
+		return hs, fsm.EncodeAddSubscribersCommand(ch, 2, uids, v...), "AddSubscribers"
 	}},
 	{4, func(g *gen) (uint16, []byte, string) {
 		var v []uint64
 		if g.n(2) == 0 {
 			v = []uint64{uint64(g.n(5))}
 		}
-		return g.hs(), fsm.EncodeRemoveSubscribersCommand(g.group(), 2, g.uids(), v...), "RemoveSubscribers"
+		hs, ch, uids := g.subsTarget()
+		return hs, fsm.EncodeRemoveSubscribersCommand(ch, 2, uids, v...), "RemoveSubscribers"
 	}},
 	{3, func(g *gen) (uint16, []byte, string) {
 		ms := []metadb.UserChannelMembership{ucm(g)}
@@ -619,14 +766,78 @@ var generators = []weighted{
 	{1, func(g *gen) (uint16, []byte, string) {
 		return 3, fsm.EncodeCleanupHashSlotMigrationOutboxCommand(3, slotID, 9, uint64(1+g.n(8))), "CleanupMigrationOutbox"
 	}},
+	// forwarded deltas that wrap each multi-item batch command kind, items spanning the delta's
+	// hash slot, other owned hash slots and hash slots the slot does not own
+	{2, func(g *gen) (uint16, []byte, string) {
+		return deltaBatch(g, "UpsertChannelLatestBatch", func(hs []uint16) ([]byte, error) {
+			items := make([]fsm.ChannelLatestBatchItem, 0, len(hs))
+			for _, h := range hs {
+				items = append(items, fsm.ChannelLatestBatchItem{HashSlot: h, Latest: latest(g)})
+			}
+			return fsm.EncodeUpsertChannelLatestBatchCommand(items), nil
+		})
+	}},
+	{2, func(g *gen) (uint16, []byte, string) {
+		return deltaBatch(g, "CreateChannelRuntimeMetaBatch", func(hs []uint16) ([]byte, error) {
+			items := make([]fsm.CreateChannelRuntimeMetaBatchItem, 0, len(hs))
+			for _, h := range hs {
+				ch, ct := g.group(), int64(2)
+				if g.n(3) == 0 {
+					ch, ct = g.person(), 1
+				}
+				items = append(items, fsm.CreateChannelRuntimeMetaBatchItem{HashSlot: h, Meta: g.runtimeMeta(h, ch, ct)})
+			}
+			return fsm.EncodeCreateChannelRuntimeMetaBatchCommandChecked(items)
+		})
+	}},
+	{2, func(g *gen) (uint16, []byte, string) {
+		return deltaBatch(g, "AdmitPersonDirectoryTaskBatch", func(hs []uint16) ([]byte, error) {
+			items := make([]fsm.PersonDirectoryAdmissionBatchItem, 0, len(hs))
+			for _, h := range hs {
+				ch := g.person()
+				items = append(items, fsm.PersonDirectoryAdmissionBatchItem{HashSlot: h,
+					Task: metadb.PersonDirectoryTask{ChannelID: ch, ChannelType: 1, CommittedTail: uint64(g.n(5)), CreatedAt: baseMS + int64(g.n(4))}, RuntimeMeta: g.runtimeMeta(h, ch, 1)})
+			}
+			return fsm.EncodeAdmitPersonDirectoryTaskBatchCommandChecked(items)
+		})
+	}},
+	{2, func(g *gen) (uint16, []byte, string) {
+		return deltaBatch(g, "EnsureUserChannelMembershipBatch", func(hs []uint16) ([]byte, error) {
+			items := make([]fsm.UserChannelMembershipBatchItem, 0, len(hs))
+			for _, h := range hs {
+				ch := g.person()
+				left, right, _ := channelid.DecodePersonChannel(ch)
+				items = append(items, fsm.UserChannelMembershipBatchItem{HashSlot: h, Membership: metadb.UserChannelMembership{UID: []string{left, right}[g.n(2)],
+					ChannelID: ch, ChannelType: 1, JoinSeq: uint64(g.n(3)), ActivatedAt: baseMS + int64(g.n(4)), UpdatedAt: baseMS + int64(g.n(4))}})
+			}
+			return fsm.EncodeEnsureUserChannelMembershipBatchCommandChecked(items)
+		})
+	}},
+	{2, func(g *gen) (uint16, []byte, string) {
+		return deltaBatch(g, "CompletePersonDirectoryTaskBatch", func(hs []uint16) ([]byte, error) {
+			items := make([]fsm.PersonDirectoryCompletionBatchItem, 0, len(hs))
+			for _, h := range hs {
+				ch := g.personFor(h)
+				gen := uint64(1 + g.n(2))
+				// aim at the generation of a task that is pending in that hash slot
+				if m, err := g.db.ForHashSlot(h).GetChannelRuntimeMeta(bg, ch, 1); err == nil && m.DirectoryGeneration != 0 && g.n(4) != 0 {
+					gen = m.DirectoryGeneration
+				}
+				items = append(items, fsm.PersonDirectoryCompletionBatchItem{HashSlot: h, ChannelID: ch, ChannelType: 1, Generation: gen})
+			}
+			return fsm.EncodeCompletePersonDirectoryTaskBatchCommandChecked(items)
+		})
+	}},
+	{6, subsChurn},
 }
 
 // family of each generator above, by position
 var famOf = []string{"user", "user", "user", "user", "channel", "channel", "channel", "channel", "runtime", "runtime", "runtime", "runtime",
 	"subs", "subs", "member", "member", "member", "member", "member", "cmdmember", "cmdmember", "cmdmember", "latest", "latest",
-	"event", "event", "person", "person", "person", "plugin", "plugin", "migration", "migration", "hsmig", "hsmig", "hsmig", "hsmig"}
+	"event", "event", "person", "person", "person", "plugin", "plugin", "migration", "migration", "hsmig", "hsmig", "hsmig", "hsmig",
+	"deltabatch", "deltabatch", "deltabatch", "deltabatch", "deltabatch", "subs"}
 
-var families = []string{"user", "channel", "runtime", "subs", "member", "cmdmember", "latest", "event", "person", "plugin", "migration", "migration", "migration", "hsmig", "hsmig"}
+var families = []string{"user", "channel", "runtime", "subs", "member", "cmdmember", "latest", "event", "person", "plugin", "migration", "migration", "migration", "hsmig", "hsmig", "deltabatch", "deltabatch"}
 
 func (g *gen) weight(i int) int {
 	if g.theme != "" && famOf[i] == g.theme {
@@ -635,7 +846,61 @@ func (g *gen) weight(i int) int {
 	return generators[i].w
 }
 
+// subsChurn scripts a run of subscriber commands on ONE channel row that exists: the channel is
+// upserted, a uid set is added, then removed / added again two to four times (plain commands,
+// no mutation version, so none of them is refused).  Whether the remove and the re-add of a uid
+// that an earlier apply batch made durable share a batch is up to the schedule; the channel's
+// subscriber count and rows must come out as in the one-at-a-time run.
+func subsChurn(g *gen) (uint16, []byte, string) {
+	hs, ch, uids := g.hs(), g.group(), g.uids()
+	g.subHS, g.subCh, g.subUIDs = hs, ch, uids
+	sub := func() []string {
+		if g.n(3) == 0 && len(uids) > 1 {
+			return append([]string(nil), uids[:1+g.n(len(uids)-1)]...)
+		}
+		return append([]string(nil), uids...)
+	}
+	g.queue = append(g.queue, func(g *gen) (uint16, []byte, string) {
+		return hs, fsm.EncodeAddSubscribersCommand(ch, 2, sub()), "AddSubscribers"
+	})
+	add := false
+	for k := 2 + g.n(3); k > 0; k-- {
+		if g.n(5) == 0 { // now and then the same direction twice (remove twice / add twice)
+			add = !add
+		}
+		if add {
+			g.queue = append(g.queue, func(g *gen) (uint16, []byte, string) {
+				return hs, fsm.EncodeAddSubscribersCommand(ch, 2, sub()), "AddSubscribers"
+			})
+		} else {
+			g.queue = append(g.queue, func(g *gen) (uint16, []byte, string) {
+				return hs, fsm.EncodeRemoveSubscribersCommand(ch, 2, sub()), "RemoveSubscribers"
+			})
+		}
+		add = !add
+	}
+	if _, err := g.db.ForHashSlot(hs).GetChannel(bg, ch, 2); err == nil && g.n(3) != 0 {
+		// the channel row exists already: start with the first add
+		fn := g.queue[0]
+		g.queue = g.queue[1:]
+		return fn(g)
+	}
+	return hs, fsm.EncodeUpsertChannelCommand(metadb.Channel{ChannelID: ch, ChannelType: 2, Ban: int64(g.n(2)), Large: int64(g.n(2))}), "UpsertChannel"
+}
+
+// valid: the next command of a scripted run if there is one, else a fresh draw.
 func (g *gen) valid() cmdRec {
+	if len(g.queue) > 0 {
+		fn := g.queue[0]
+		g.queue = g.queue[1:]
+		if hs, data, desc := fn(g); data != nil {
+			return cmdRec{HashSlot: hs, Data: data, Desc: desc}
+		}
+	}
+	return g.draw()
+}
+
+func (g *gen) draw() cmdRec {
 	if len(famOf) != len(generators) {
 		panic("famOf out of date")
 	}
@@ -698,7 +963,7 @@ func decodes(c cmdRec) bool {
 // malformed: a payload the decoder rejects (arbitrary bytes or a corrupted real command).
 func (g *gen) malformed() cmdRec {
 	for {
-		c := g.valid()
+		c := g.draw()
 		switch g.n(8) {
 		case 0:
 			c.Data = nil
@@ -720,13 +985,14 @@ func (g *gen) malformed() cmdRec {
 // unowned: a well-formed command addressed to (or carrying an item for) a hash slot that
 // this slot does not own.
 func (g *gen) unowned() cmdRec {
+	u := foreignHS[g.n(len(foreignHS))] // 4 (empty) or 5 (rows of another slot)
 	switch g.n(4) {
 	case 0:
-		items := []fsm.ChannelLatestBatchItem{{HashSlot: g.hs(), Latest: latest(g)}, {HashSlot: 4, Latest: latest(g)}}
+		items := []fsm.ChannelLatestBatchItem{{HashSlot: g.hs(), Latest: latest(g)}, {HashSlot: u, Latest: latest(g)}}
 		return cmdRec{HashSlot: items[0].HashSlot, Data: fsm.EncodeUpsertChannelLatestBatchCommand(items), Desc: "unowned-item(UpsertChannelLatestBatch)"}
 	case 1:
 		for {
-			c := g.valid()
+			c := g.draw()
 			if fsmIsDeltaOrMaintenance(c.Data) {
 				continue
 			}
@@ -735,11 +1001,11 @@ func (g *gen) unowned() cmdRec {
 		}
 	default:
 		for {
-			c := g.valid()
+			c := g.draw()
 			if fsmIsDeltaOrMaintenance(c.Data) {
 				continue
 			}
-			c.HashSlot, c.Desc = 4, "unowned-hs4("+c.Desc+")"
+			c.HashSlot, c.Desc = u, fmt.Sprintf("unowned-hs%d(%s)", u, c.Desc)
 			return c
 		}
 	}
@@ -778,9 +1044,44 @@ type caseLog struct {
 	kinds []string // 1-based (kinds[0] unused)
 	cmds  []cmdRec // 1-based
 	ref   [][]byte // ref[i]: exported metadata after entries 1..i applied one at a time
+	// refAll / refOwned: the same for all exported hash slots (owned 1-3, not owned 4-5) and for
+	// the owned ones alone.  ref is refAll, unless the one-at-a-time run itself wrote into a hash
+	// slot the slot does not own (reported there, under its own signature): the state machine's
+	// snapshots do not carry such rows, so from then on the schedules are compared on the owned
+	// hash slots only.
+	refAll, refOwned [][]byte
+	leaked           bool
 }
 
 func (c *caseLog) n() int { return len(c.cmds) - 1 }
+
+// scope: the hash slots whose exported content is compared with the reference.
+func (c *caseLog) scope() []uint16 {
+	if c.leaked {
+		return ownedHS
+	}
+	return allHS
+}
+
+// sigName: the command family of a description, without the wrappers of the generators.
+func sigName(desc string) string {
+	for {
+		i := strings.Index(desc, "(")
+		if i < 0 || !strings.HasSuffix(desc, ")") {
+			break
+		}
+		if head := desc[:i]; head == "DeltaBatch" {
+			return "delta:" + sigName(desc[i+1:len(desc)-1])
+		} else if head != "mutated" && !strings.HasPrefix(head, "unowned-") && head != "malformed" && head != "stale" {
+			break
+		}
+		desc = desc[i+1 : len(desc)-1]
+	}
+	if i := strings.IndexAny(desc, " ("); i >= 0 {
+		desc = desc[:i]
+	}
+	return desc
+}
 
 func (c *caseLog) describe() []any {
 	out := []any{}
@@ -868,7 +1169,13 @@ func (h *harness) buildLog(kinds []string) (*caseLog, bool) {
 		h.rep.Infra("export: %v", err)
 		return nil, false
 	}
-	cl.ref = append(cl.ref, cur)
+	curOwned, err1 := ref.exportOf(ownedHS)
+	curForeign, err2 := ref.exportOf(foreignHS)
+	if err1 != nil || err2 != nil {
+		h.rep.Infra("export: %v %v", err1, err2)
+		return nil, false
+	}
+	cl.refAll, cl.refOwned = append(cl.refAll, cur), append(cl.refOwned, curOwned)
 	for i := 1; i <= len(kinds); i++ {
 		kind := kinds[i-1]
 		for attempt := 0; ; attempt++ {
@@ -905,6 +1212,27 @@ func (h *harness) buildLog(kinds []string) (*caseLog, bool) {
 			}
 			d1, _ := ref.durable()
 			replay := map[string]any{"log": cl.describe(), "at": i}
+			// Hash slots the slot does not own keep their content whatever the command was and
+			// whether it was accepted or refused.  The run goes on after a report (one report per
+			// command family); the schedules of this log are then compared on the owned hash slots.
+			afterForeign, ferr := ref.exportOf(foreignHS)
+			if ferr != nil {
+				h.rep.Infra("export: %v", ferr)
+				return nil, false
+			}
+			if pan == nil && !bytes.Equal(afterForeign, curForeign) {
+				outcome := "accepted"
+				if aerr != nil {
+					outcome = fmt.Sprintf("refused (%v)", aerr)
+				}
+				h.violate("unowned", "unowned-hash-slot-written:"+sigName(c.Desc), fmt.Sprintf("entry %d (%s, command hash slot %d) was %s and changed metadata of a hash slot that slot %d (owning %v) does not own: %s",
+					i, c.Desc, c.HashSlot, outcome, slotID, ownedHS, diffSnap(curForeign, afterForeign)), replay)
+				cl.leaked = true
+				curForeign = afterForeign
+				if aerr != nil {
+					return nil, false
+				}
+			}
 			if pan != nil {
 				h.violate("crash", "panic:"+kind, fmt.Sprintf("ApplyBatch panicked on a %s command (%s): %v", kind, c.Desc, pan), replay)
 				return nil, false
@@ -938,7 +1266,16 @@ func (h *harness) buildLog(kinds []string) (*caseLog, bool) {
 			cur = after
 			break
 		}
-		cl.ref = append(cl.ref, cur)
+		curOwned, err = ref.exportOf(ownedHS)
+		if err != nil {
+			h.rep.Infra("export: %v", err)
+			return nil, false
+		}
+		cl.refAll, cl.refOwned = append(cl.refAll, cur), append(cl.refOwned, curOwned)
+	}
+	cl.ref = cl.refAll
+	if cl.leaked {
+		cl.ref = cl.refOwned
 	}
 	return cl, true
 }
@@ -1062,7 +1399,7 @@ func (r *replica) refused(i int) bool { return r.cl.kinds[i] == "U" || r.cl.kind
 // entries the database already contains (p < hw) the metadata is legitimately ahead of p and
 // is not judged.
 func (r *replica) observe(want int) (int, []byte, error) {
-	b, err := r.w.export()
+	b, err := r.w.exportOf(r.cl.scope())
 	if err != nil {
 		return 0, nil, err
 	}
@@ -1182,7 +1519,7 @@ func (h *harness) finish(r *replica, replay map[string]any) bool {
 			h.violate("replay", "replay-error", fmt.Sprintf("entry %d (%s), accepted by the one-at-a-time run, failed when fed again: err=%v panic=%v", at, r.cl.cmds[at].Desc, err, pan), replay)
 			return false
 		}
-		b, err := r.w.export()
+		b, err := r.w.exportOf(r.cl.scope())
 		if err != nil {
 			h.rep.Infra("export: %v", err)
 			return false
